@@ -125,7 +125,7 @@ def reuse_oracle(history: list) -> list[Violation]:
 class C05(CheckBase):
     pid = "C05"
     level = "exploration"
-    quick_cases = 640
+    quick_cases = 960
     thorough_cases = 9600
 
     def cases(self, rng: random.Random, tier: str, idx: int) -> Iterable[dict]:
